@@ -37,6 +37,8 @@ def extract(cap):
 
 
 def cfg_text(k, c, export, invariants, spec="Spec", props=()):
+    """export: False | True (every transition's history printed, BFS) | "hist" (history kept for counterexamples, nothing
+    printed) | "sim" (history printed once per simulated behaviour, at level SIM_DEPTH)"""
     b = lambda x: "TRUE" if x else "FALSE"
     th = "{" + ",".join('"%s"' % t for t in c["threads"]) + "}"
     return ("SPECIFICATION %s\nCONSTANTS Threads = %s\n NStmt = %d\n NFlush = %d\n Sizes = {%s}\n FlushSz = %d\n RmSz = %d\n Bounded = %s\n"
@@ -48,7 +50,8 @@ def cfg_text(k, c, export, invariants, spec="Spec", props=()):
                b(k.get("RecheckOnRemove", True)), b(export),
                ("INVARIANTS " + " ".join(invariants) + "\n") if invariants else "",
                ("PROPERTIES " + " ".join(props) + "\n") if props else "",
-               "VIEW StateView\n" if spec == "Spec" else "", "ACTION_CONSTRAINT ExportA\n" if export else ""))
+               "VIEW StateView\n" if spec == "Spec" else "",
+               {True: "ACTION_CONSTRAINT ExportA\n", "sim": "ACTION_CONSTRAINT ExportSim\n"}.get(export, "")))
 
 
 ACTIONS = ["RemoveLogger", "RemoveBlockingStart", "RemoveBlockingCheck", "LogStart", "Enqueue", "FlushStart", "FlushCheck", "ThreadExit", "BStart", "BRead", "BProc", "BAfterPop", "BBatchIter",
@@ -166,11 +169,28 @@ def contract_lines_of_model(beh, c):
 
 def run_config(ck, prop, c, k, invariants, quick, rng, label, replay_limit):
     """one configuration: exhaustive check + export + I=>A + replay. Returns the TLC result."""
-    cfg = vlib.write_cfg(vlib.BUILD / "cfg" / f"Quill_{prop}_{label}.cfg", cfg_text(k, c, True, invariants))
+    # exhaustive run first, history kept (hidden by the VIEW) but not printed: cheap even for millions of states
+    cfg = vlib.write_cfg(vlib.BUILD / "cfg" / f"Quill_{prop}_{label}.cfg", cfg_text(k, c, True if quick else "hist", invariants))
     r = vlib.tlc("Quill", cfg, timeout=1700, heap="16g")
     if r.error:
         raise vlib.Infra(r.error)
     ck.add_tlc(r, f"Quill {label}")
+    rx = r          # quick tier: configurations are small, the one run exports too
+    if not r.violated and not quick:
+        if r.generated <= EXPORT_ALL_LIMIT:
+            # small enough: one behaviour per transition of the whole state graph
+            cfgx = vlib.write_cfg(vlib.BUILD / "cfg" / f"Quill_{prop}_{label}_x.cfg", cfg_text(k, c, True, invariants))
+            rx = vlib.tlc("Quill", cfgx, timeout=1700, heap="16g")
+        else:
+            # too many transitions to print: behaviours of depth SIM_DEPTH drawn by TLC's simulator from the same spec
+            cfgx = vlib.write_cfg(vlib.BUILD / "cfg" / f"Quill_{prop}_{label}_s.cfg", cfg_text(k, c, "sim", invariants))
+            rx = vlib.tlc("Quill", cfgx, timeout=1700, heap="8g", simulate=SIM_NUM // 8, depth=SIM_DEPTH + 2, workers=8,
+                          seed=rng.randrange(1 << 30), dump_trace=False)
+            ck.extra.setdefault("simulated_export", []).append(label)
+        if rx.error:
+            raise vlib.Infra(rx.error)
+        if rx.violated:
+            raise vlib.Infra(f"export run of {label} disagrees with the exhaustive run: {rx.violated}")
     qk = qk_of(c)
     if r.violated:
         # counterexample in the implementation-shaped model with the code's constants: replay it, judge by the contract
@@ -190,7 +210,7 @@ def run_config(ck, prop, c, k, invariants, quick, rng, label, replay_limit):
         if len(ck.violations) + len(ck.known_seen) == before:
             ck.drifted(f"{label}: model violates {r.violated} ({st.get('bad', '')}) but the real code passes the contract on that schedule")
         return r
-    behs = vlib.behaviours(r)
+    behs = vlib.behaviours(rx)
     if not behs:
         raise vlib.Infra("no behaviours exported")
     # I => A: the model's own event traces judged by the contract
@@ -236,6 +256,8 @@ def run_config(ck, prop, c, k, invariants, quick, rng, label, replay_limit):
     return r
 
 
+EXPORT_ALL_LIMIT = 400000      # transitions; beyond this the export is by simulation
+SIM_NUM, SIM_DEPTH = 6000, 60
 BASE = dict(threads=["t1", "t2"], nstmt=1, nflush=0, sizes=[96], bounded=True, dropping=False, cap=256, soft=1, hard=2, grace=0,
             maxtime=12, exit=True)
 CONFIGS = {
